@@ -396,6 +396,100 @@ def _ctx_key(node) -> str:
     return getattr(n, "name", "module")
 
 
+COPY_HOOKS = ("__deepcopy__", "__copy__", "__getstate__", "__setstate__", "__reduce__", "__reduce_ex__", "__getnewargs__", "__getnewargs_ex__")
+
+
+def copy_plain(eng, res, rule="R-COPY-PLAIN"):
+    """The library hands out and works on deep copies of parsed objects everywhere (MolGen's descriptors, Molecule.elements,
+    the mirror, search states).  A copy denotes what the original denotes only if copying copies every field: no class
+    of the notation (or MolGen) customises copying."""
+    res.doc(rule, "copies of notation objects are plain (field-by-field) copies: no class customises copy / pickle hooks")
+    classes = [c for c in eng.prog.classes.values() if c.name in ("MolGen", "RememberAdd", "OpenAtom", "PossibleMatch") or eng.prog.is_subclass(c, "BigSMILESbase")]
+    hooks = [(c, h) for c in classes for h in COPY_HOOKS if c.method(h) is not None]
+    for c, h in hooks:
+        res.unit(c.method(h))
+    res.ob(rule, "package", "no-copy-hooks", "no notation class defines __deepcopy__ / __copy__ / pickle hooks (a copy carries every field of the original)", "-", not hooks,
+           "; ".join(f"{c.name}.{h} ({c.module.relpath}:{c.method(h).node.lineno})" for c, h in hooks))
+    return len(classes)
+
+
+def shared_arrays(eng, res, rule="R-SHARED-FIELD"):
+    """Some fields of half-built molecules hold the very object a parsed descriptor holds (the hand-over stores the left
+    terminal's list by reference).  That is harmless as long as such a value is only read: no code reachable from a
+    generation entry point changes, in place, a value obtained from a field that is shared this way."""
+    res.doc(rule, "a field value that generation shares by reference with the parsed object is never changed in place")
+    from ..util import generate_roots
+
+    notation = {c.name for c in eng.prog.classes.values() if eng.prog.is_subclass(c, "BigSMILESbase")}
+    shared = {}
+    for q, fi in sorted(eng.prog.functions.items()):
+        own = fi.enclosing_class() or (fi.outermost().enclosing_class())
+        if own is None or own.name not in notation:
+            continue
+        for st in own_nodes(fi.node):
+            if isinstance(st, ast.Assign) and len(st.targets) == 1 and isinstance(st.targets[0], ast.Attribute) and isinstance(st.value, ast.Attribute):
+                v = st.value
+                root = v
+                while isinstance(root, ast.Attribute):
+                    root = root.value
+                if isinstance(root, ast.Name) and root.id == "self" and v.attr == st.targets[0].attr and not (isinstance(st.targets[0].value, ast.Name) and st.targets[0].value.id == "self"):
+                    shared.setdefault(v.attr, []).append((fi, st))
+    # only fields that can hold a mutable value (an array / list is stored into them somewhere in the notation classes)
+    def holds_container(attr):
+        for c in eng.prog.classes.values():
+            if c.name not in notation:
+                continue
+            for fs in c.methods.values():
+                for f in fs:
+                    for n_ in ast.walk(f.node):
+                        if isinstance(n_, ast.Assign) and any(isinstance(t, ast.Attribute) and t.attr == attr for t in n_.targets):
+                            v = n_.value
+                            if isinstance(v, (ast.List, ast.ListComp, ast.Dict, ast.Set)) or (isinstance(v, ast.Call) and callee_name(v) in ("array", "asarray", "list", "zeros", "ones", "copy", "deepcopy")):
+                                return True
+        return False
+
+    fields = {f for f in shared if holds_container(f)}
+    shared = {f: L for f, L in shared.items() if f in fields}
+    reach = eng.reachable_funcs(generate_roots(eng))
+    MUT = {"sort", "reverse", "append", "extend", "insert", "pop", "remove", "clear", "fill", "put", "itemset", "resize"}
+    n = 0
+    bad = []
+    for q in sorted(reach):
+        fi = eng.prog.functions.get(q)
+        if fi is None:
+            continue
+        fl = eng.flow(fi)
+
+        def aliases_field(e, at):
+            """the expression is (a plain alias of) an attribute read of a shared field"""
+            if isinstance(e, ast.Attribute) and e.attr in fields:
+                return e.attr
+            if isinstance(e, ast.Name) and fl.is_local(e.id):
+                for d in fl.reaching(e.id, at):
+                    if d.kind == "assign" and isinstance(d.value, ast.Attribute) and d.value.attr in fields:
+                        return d.value.attr
+            return None
+
+        for st in own_nodes(fi.node):
+            hit = None
+            if isinstance(st, ast.AugAssign) and fl.cfg.has(st):
+                t = st.target
+                base = t.value if isinstance(t, ast.Subscript) else t
+                hit = aliases_field(base, fl.cfg.node_of(st))
+            elif isinstance(st, ast.Assign) and fl.cfg.has(st):
+                for t in st.targets:
+                    if isinstance(t, ast.Subscript):
+                        hit = hit or aliases_field(t.value, fl.cfg.node_of(st))
+            elif isinstance(st, ast.Call) and isinstance(st.func, ast.Attribute) and st.func.attr in MUT and fl.cfg.has(st):
+                hit = aliases_field(st.func.value, fl.cfg.node_of(st))
+            if hit:
+                bad.append(f"{fi.qualname} line {st.lineno}: in-place change of a value read from .{hit}")
+        n += 1
+    where = "; ".join(f".{f} shared at {fi.module.relpath}:{st.lineno}" for f, L in sorted(shared.items()) for fi, st in L[:1])
+    res.ob(rule, "package", "no-in-place-change", f"no in-place change of a value read from a field that generation shares with the parsed object ({where})", "-", not bad, "; ".join(bad[:3]))
+    return n
+
+
 def check(eng, res):
     res.doc("R-RNG-THREAD", "every call to a callee with an rng parameter (and every SciPy rvs) passes the generator in scope")
     res.doc("R-GLOBAL-RNG-USE", "_GLOBAL_RNG only as default / None-fallback; no legacy global random functions; unseeded default_rng only as fallback")
@@ -403,6 +497,8 @@ def check(eng, res):
     res.doc("R-NO-SHARED-MUTABLE", "a mutable bound in a class body is never mutated through self without a per-instance rebinding in the constructor")
     res.doc("R-COPY-OWNED", "every value stored into MolGen.bond_descriptors is a deep copy")
     res.doc("R-ACCESSOR-COPY", "Molecule.elements returns, and gen_mirror edits, deep copies")
+    copy_plain(eng, res)
+    shared_arrays(eng, res)
     n1 = rng_thread(eng, res)
     res.floor("R-RNG-THREAD", n1, 15)
     n2 = global_rng_use(eng, res)
